@@ -37,6 +37,8 @@ func runC14(c *Ctx, r *Report) {
 	c14Siblings(c, r, "C14.R9")
 	c14Transport(c, r, "C14.R10")
 	c14Headers(c, r, "C14.R11")
+	c14NotProvision(c, r, "C14.R12")
+	c14NoDroppedEntry(c, r, "C14.R13")
 }
 
 // fieldAccesses returns for every function the struct fields it loads and stores.
@@ -618,4 +620,276 @@ func c14Headers(c *Ctx, r *Report, rule string) {
 	if adds == 0 {
 		r.bad(rule, "modules/l4http", "fields are added", "-", "no loop adds decoded header fields to the request with Header.Add")
 	}
+}
+
+// c14NotProvision: the `not` matcher's provisioning turns the loaded module maps into matcher sets one to one: the
+// k-th set holds exactly the matchers of the k-th configured group (groups of 2, 1 and 1 matchers are evaluated).
+func c14NotProvision(c *Ctx, r *Report, rule string) {
+	r.rule(rule, "not matcher provisioning (path evaluation with three loaded groups of 2, 1 and 1 matchers): MatcherSets gets one set per group, in order, holding exactly that group's matchers - no set carries matchers of an earlier group", 1)
+	fnName := "layer4.(*MatchNot).Provision"
+	fn := c.Fn(fnName)
+	if fn == nil {
+		r.bad(rule, fnName, "exists", "-", "function not found")
+		return
+	}
+	groups := [][]string{{"a1", "a2"}, {"b1"}, {"c1"}}
+	sc := &Scenario{Name: "groups", MaxVisit: 12, MaxPaths: 5000,
+		Params: map[string]SV{"recv": symRef("m", false)}, ByType: map[string]SV{"caddy/v2.Context": {K: "struct", Desc: "ctx"}},
+		Heap: map[string]SV{"m.MatcherSets": symSlice("nil-sets", 0)}}
+	for i, g := range groups {
+		ms := map[string]SV{}
+		for _, name := range g {
+			v := symRef("matcher:"+name, false)
+			v.Dyn = "layer4.ConnMatcher"
+			ms[name] = v
+		}
+		sc.Heap[fmt.Sprintf("loaded[%d]", i)] = SV{K: "ref", Known: true, Desc: fmt.Sprintf("group%d", i)}
+		sc.Heap[fmt.Sprintf("loaded.([]map[string]any)[%d]", i)] = SV{K: "ref", Known: true, Desc: fmt.Sprintf("group%d", i)}
+		sc.Heap[fmt.Sprintf("loaded.([]map[string]interface{})[%d]", i)] = SV{K: "ref", Known: true, Desc: fmt.Sprintf("group%d", i)}
+		sc.Heap[fmt.Sprintf("smap:group%d", i)] = SV{K: "mapval", MS: ms}
+	}
+	sc.Call = func(callee string, args []SV, ev *symEval, st *symState) (SV, bool) {
+		if strings.HasSuffix(callee, "caddy/v2.Context).LoadModule") {
+			l := symInt(int64(len(groups)))
+			return symTuple(SV{K: "ref", Known: true, Desc: "loaded", Len: &l, Cap: &l, Dyn: "[]map[string]any"}, symNil()), true
+		}
+		if callee == "fmt.Errorf" {
+			return SV{K: "ref", Known: true, Desc: "errorf"}, true
+		}
+		return SV{}, false
+	}
+	paths, err := evalPaths(fn, sc)
+	if err != nil || len(paths) == 0 {
+		r.bad(rule, fnName, "sets per group", c.pos(fn.Pos()), fmt.Sprintf("undecided: %v", err))
+		return
+	}
+	var problems []string
+	okPaths := 0
+	for _, p := range paths {
+		if p.Outcome != "return" || len(p.Ret) != 1 {
+			problems = append(problems, "undecided path: "+p.Outcome+" "+fmtTrace(p))
+			continue
+		}
+		if !(p.Ret[0].Known && p.Ret[0].Nil) {
+			continue // a failed type assertion / load
+		}
+		okPaths++
+		sets := p.Heap["m.MatcherSets"]
+		if sets.Len == nil || !sets.Len.Known || sets.Len.N != int64(len(groups)) {
+			problems = append(problems, fmt.Sprintf("MatcherSets has %s sets for %d configured groups", lenDesc(sets), len(groups)))
+			continue
+		}
+		for i, g := range groups {
+			set := p.Heap[fmt.Sprintf("%s[%d]", sets.Desc, i)]
+			var got []string
+			if set.Len != nil && set.Len.Known {
+				for k := int64(0); k < set.Len.N; k++ {
+					got = append(got, strings.TrimPrefix(p.Heap[fmt.Sprintf("%s[%d]", set.Desc, k)].Desc, "matcher:"))
+				}
+			} else {
+				got = []string{"?" + set.Desc}
+			}
+			for j := range got {
+				if k := strings.Index(got[j], ".("); k > 0 {
+					got[j] = got[j][:k]
+				}
+			}
+			if strings.Join(got, ",") != strings.Join(g, ",") {
+				problems = append(problems, fmt.Sprintf("set %d holds the matchers %v, its group is %v: `not {A} {B}` then means something else than 'neither A nor B'", i, got, g))
+			}
+		}
+	}
+	if okPaths == 0 {
+		problems = append(problems, "no successful path")
+	}
+	r.check(len(problems) == 0, rule, fnName, "sets per group", c.pos(fn.Pos()), fmt.Sprintf("%d paths", len(paths)), strings.Join(dedup(problems), "; "))
+}
+
+func lenDesc(v SV) string {
+	if v.Len != nil {
+		return v.Len.Desc
+	}
+	return "an unknown number of"
+}
+
+// c14NoDroppedEntry: a matcher's Provision that turns a configured list into its parsed form keeps every entry: in a
+// loop over a configuration field that appends to a provisioned (unexported) field of the matcher, no path goes on
+// to the next entry without appending or failing. A parsed list that silently lost entries filters differently from
+// what is configured - and one that lost all of them usually means "no filter".
+func c14NoDroppedEntry(c *Ctx, r *Report, rule string) {
+	r.rule(rule, "no filter entry is dropped while provisioning: in every ConnMatcher's Provision, a loop over a configured list that appends to a provisioned list of the matcher reaches the next entry only through the append (or fails provisioning)", 3)
+	cm := c.iface("layer4", "ConnMatcher")
+	if cm == nil {
+		r.bad(rule, "layer4.ConnMatcher", "exists", "-", "interface not found")
+		return
+	}
+	n := 0
+	for _, match := range c.implementors(cm, "Match") {
+		recvT := match.Signature.Recv().Type()
+		var prov *ssa.Function
+		for _, t := range []types.Type{recvT, types.NewPointer(deref(recvT))} {
+			ms := c.Prog.MethodSets.MethodSet(t)
+			for i := 0; i < ms.Len(); i++ {
+				if ms.At(i).Obj().Name() == "Provision" {
+					prov = c.Prog.MethodValue(ms.At(i))
+				}
+			}
+		}
+		if prov == nil || len(prov.Blocks) == 0 {
+			continue
+		}
+		sn := namedName(deref(recvT))
+		for _, h := range sortedFuncs(c.reachSync(prov)) {
+			if h.Pkg != prov.Pkg {
+				continue
+			}
+			for _, b := range h.Blocks {
+				for _, in := range b.Instrs {
+					st, ok := in.(*ssa.Store)
+					if !ok || !inLoop(b) {
+						continue
+					}
+					_, ssn, f, ok := fieldAddr(st.Addr)
+					if !ok || ssn != sn || token.IsExported(f) {
+						continue
+					}
+					call, ok := st.Val.(*ssa.Call)
+					if !ok || calleeID(call) != "builtin append" {
+						continue
+					}
+					// the loop this append belongs to: a range/index loop over an exported field of the same struct
+					var header ssa.Instruction
+					for _, hb := range h.Blocks {
+						if !hb.Dominates(b) || !inLoop(hb) {
+							continue
+						}
+						for _, hin := range hb.Instrs {
+							switch hx := hin.(type) {
+							case *ssa.Next:
+								header = hx
+							case *ssa.If:
+								if len(hb.Preds) >= 2 && header == nil {
+									header = hx
+								}
+							}
+						}
+					}
+					if header == nil {
+						continue
+					}
+					overConfig := false
+					for _, hin := range h.Blocks[0].Instrs {
+						_ = hin
+					}
+					for _, o := range origins(headerSubject(header), sliceOpts{}) {
+						if o.Kind == "field" && strings.HasPrefix(o.Desc, sn+".") && token.IsExported(strings.TrimPrefix(o.Desc, sn+".")) {
+							overConfig = true
+						}
+					}
+					if !overConfig {
+						continue
+					}
+					n++
+					// from the first instruction after the loop test (body entry), can the header be reached again
+					// without the append and without returning?
+					// (any append to the same field counts - a switch may have one per case -, and so does skipping an
+					// entry that is the empty string, e.g. a placeholder that resolved to nothing)
+					body := header.Block().Succs[0]
+					sameField := func(x ssa.Instruction) bool {
+						s2, ok := x.(*ssa.Store)
+						if !ok {
+							return false
+						}
+						_, sn2, f2, ok := fieldAddr(s2.Addr)
+						return ok && sn2 == ssn && f2 == f
+					}
+					emptySucc := func(iff *ssa.If) int { // which successor is taken when the tested string is empty (-1: not such a test)
+						bo, ok := iff.Cond.(*ssa.BinOp)
+						if !ok {
+							return -1
+						}
+						isStr := func(v ssa.Value) bool {
+							b, ok := v.Type().Underlying().(*types.Basic)
+							return ok && b.Info()&types.IsString != 0
+						}
+						lenOfStr := func(v ssa.Value) bool {
+							call, ok := v.(*ssa.Call)
+							return ok && calleeID(call) == "builtin len" && isStr(call.Call.Args[0])
+						}
+						zero := func(v ssa.Value) bool { k, ok := constInt(v); return ok && k == 0 }
+						one := func(v ssa.Value) bool { k, ok := constInt(v); return ok && k == 1 }
+						emptyStr := func(v ssa.Value) bool { sv, ok := constString(v); return ok && sv == "" }
+						switch {
+						case lenOfStr(bo.X) && zero(bo.Y) && (bo.Op == token.GTR || bo.Op == token.NEQ), lenOfStr(bo.X) && one(bo.Y) && bo.Op == token.GEQ, isStr(bo.X) && emptyStr(bo.Y) && bo.Op == token.NEQ:
+							return 1
+						case lenOfStr(bo.X) && zero(bo.Y) && (bo.Op == token.EQL || bo.Op == token.LEQ), lenOfStr(bo.X) && one(bo.Y) && bo.Op == token.LSS, isStr(bo.X) && emptyStr(bo.Y) && bo.Op == token.EQL:
+							return 0
+						}
+						return -1
+					}
+					var leak ssa.Instruction
+					seenB := map[*ssa.BasicBlock]bool{body: true}
+					work := []*ssa.BasicBlock{body}
+					for len(work) > 0 && leak == nil {
+						blk := work[len(work)-1]
+						work = work[:len(work)-1]
+						blocked := false
+						for _, x := range blk.Instrs {
+							if x == header {
+								leak = x
+								break
+							}
+							if sameField(x) || isReturn(x) {
+								blocked = true
+								break
+							}
+						}
+						if blocked || leak != nil {
+							continue
+						}
+						skip := -1
+						if iff, ok := blk.Instrs[len(blk.Instrs)-1].(*ssa.If); ok {
+							skip = emptySucc(iff)
+						}
+						for i, su := range blk.Succs {
+							if i == skip {
+								continue
+							}
+							if su == header.Block() {
+								leak = header
+								break
+							}
+							if !seenB[su] {
+								seenB[su] = true
+								work = append(work, su)
+							}
+						}
+					}
+					r.check(leak == nil, rule, fname(h), fmt.Sprintf("%s.%s entries#%d", sn, f, n), c.ipos(st), "every configured entry is appended (or provisioning fails)", "an entry of the configured list can be skipped without being appended to "+sn+"."+f+" and without failing: the provisioned filter silently differs from the configured one (an all-skipped list even disables the filter)")
+				}
+			}
+		}
+	}
+	if n == 0 {
+		r.bad(rule, "matchers", "provisioned lists", "-", "no provisioning loop found (rule has no instance)")
+	}
+}
+
+// headerSubject: what a loop iterates over - the range operand, or the value whose length bounds an index loop.
+func headerSubject(in ssa.Instruction) ssa.Value {
+	switch x := in.(type) {
+	case *ssa.Next:
+		if rg, ok := x.Iter.(*ssa.Range); ok {
+			return rg.X
+		}
+	case *ssa.If:
+		if bo, ok := x.Cond.(*ssa.BinOp); ok {
+			for _, side := range []ssa.Value{bo.Y, bo.X} {
+				if call, ok := side.(*ssa.Call); ok && calleeID(call) == "builtin len" {
+					return call.Call.Args[0]
+				}
+			}
+		}
+	}
+	return nil
 }
